@@ -121,15 +121,15 @@ def matmulBroadcastShape (a b : List Nat) : Except Err (List Nat) :=
       | none => .error .shape
       | some bc => .ok (bc ++ [m, p])
 
-/-- Diag/ConstantDiag(/KroneckerProductDiag) `matmul(Tensor)`: `diag (or diag.unsqueeze(-1)) * other`;
-`A ++ [n]` is the shape of `_diag`.  No `_matmul_broadcast_shape` call. -/
+/-- the elementwise shortcut inside Diag/ConstantDiag(/KroneckerProductDiag) `matmul(Tensor)`:
+`diag (or diag.unsqueeze(-1)) * other`; `A ++ [n]` is the shape of `_diag`.  On its own it broadcasts. -/
 def diagMatmul (A : List Nat) (n : Nat) (b : List Nat) : Except Err (List Nat) :=
   let d := if b.length = 1 then A ++ [n] else A ++ [n, 1]
   match broadcastShapes? d b with
   | none => .error .shape
   | some s => .ok s
 
-/-- Identity `matmul` / `solve` via `_maybe_reshape_rhs`: the matrix size `n` is never consulted. -/
+/-- the body of Identity `_maybe_reshape_rhs` after its guard: the matrix size `n` is not consulted. -/
 def identityMatmul (A : List Nat) (_n : Nat) (b : List Nat) : Except Err (List Nat) :=
   let isVec := b.length = 1
   let b1 := if isVec then b ++ [1] else b
@@ -140,7 +140,8 @@ def identityMatmul (A : List Nat) (_n : Nat) (b : List Nat) : Except Err (List N
   | none => .error .shape
   | some s => .ok (if isVec then s.dropLast else s)
 
-/-- Zero `matmul`: inner-dimension check, then the *other* operand's batch shape is used. -/
+/-- Zero `matmul` as it was before the fix (inner-dimension check, then the *other* operand's batch shape);
+kept only for the regression counterexample. -/
 def zeroMatmul (a b : List Nat) : Except Err (List Nat) :=
   match split2 a with
   | none => .error .index
@@ -149,14 +150,6 @@ def zeroMatmul (a b : List Nat) : Except Err (List Nat) :=
     | [] => .error .index
     | [k] => if n ≠ k then .error .shape else .ok [m]
     | p :: k :: Brev => if n ≠ k then .error .shape else .ok (Brev.reverse ++ [m, p])
-
-/-- base `solve`: `is_square`, then only the 2-D-operator × 1-D-rhs `numel` check. -/
-def solveGuard (a b : List Nat) : Except Err Unit :=
-  match split2 a with
-  | none => .error .index
-  | some (_, m, n) =>
-    if m ≠ n then .error .notSquare else
-    if a.length = 2 ∧ b.length = 1 then (if n ≠ b.foldl (· * ·) 1 then .error .shape else .ok ()) else .ok ()
 
 /-- base `inv_quad`: `is_square`, then `_matmul_broadcast_shape`. -/
 def invQuadGuard (a b : List Nat) : Except Err (List Nat) :=
@@ -198,13 +191,32 @@ def addDiagonalGuard (a d : List Nat) : Except Err (List Nat) :=
       if k ≠ 1 then (if expandOk d (A ++ [m]) then .ok a else .error .shape)
       else (if expandOk d (A ++ [1]) then .ok a else .error .shape)
 
-/-- base `expand(*sizes)`: the last two sizes must be the matrix shape or `(-1, -1)`; the batch part
-is handed to the class's `_expand_batch` unchecked.  Returns that batch part. -/
-def expandGuard (a : List Nat) (sizes : List Int) : Except Err (List Int) :=
+/-- first half of base `expand(*sizes)`: the last two sizes must be the matrix shape or `(-1, -1)`.
+Returns the batch part. -/
+def expandMatrixGuard (a : List Nat) (sizes : List Int) : Except Err (List Int) :=
   match split2 a, sizes.reverse with
   | some (_, m, n), c :: r :: Brev =>
     if (r = m ∧ c = n) ∨ (r = -1 ∧ c = -1) then .ok Brev.reverse else .error .shape
   | _, _ => .error .shape
+
+/-- base `solve` (also LowRankRootAddedDiag / KroneckerProductTriangular `solve`): `is_square`, then the full
+`_matmul_broadcast_shape` guard (the same code as `inv_quad`'s guard). -/
+def solveGuard (a b : List Nat) : Except Err (List Nat) := invQuadGuard a b
+
+/-- second half of base `expand`: the batch-target check, on reversed lists
+(old batch shape, requested batch sizes). -/
+def expandBatchOkRev : List Nat → List Int → Bool
+  | [], ts => ts.all (fun t => decide (0 ≤ t))
+  | _ :: _, [] => false
+  | o :: os, t :: ts =>
+    (decide (t = -1) || (decide (0 ≤ t) && (decide (t = (o : Int)) || decide (o = 1)))) && expandBatchOkRev os ts
+
+/-- base `expand`: matrix sizes, then batch sizes; the accepted batch part goes to `_expand_batch`. -/
+def expandGuard (a : List Nat) (sizes : List Int) : Except Err (List Int) :=
+  match split2 a, expandMatrixGuard a sizes with
+  | some (A, _, _), .ok batch => if expandBatchOkRev A.reverse batch.reverse then .ok batch else .error .shape
+  | _, .error e => .error e
+  | none, _ => .error .index
 
 /-- Dense `expand`: base guard, then `tensor.expand(*batch, *matrix_shape)` (torch's own check). -/
 def denseExpand (a : List Nat) (sizes : List Int) : Except Err (List Nat) :=
@@ -213,25 +225,6 @@ def denseExpand (a : List Nat) (sizes : List Int) : Except Err (List Nat) :=
     (match torchExpand? a (batch ++ [(m : Int), (n : Int)]) with
      | some s => .ok s
      | none => .error .shape)
-  | _, .error e => .error e
-  | none, _ => .error .index
-
-/-- `solve` after notes/C19_fix_4.diff: `is_square`, then the full `_matmul_broadcast_shape` guard
-(the same code as `inv_quad`'s guard). -/
-def solveGuardFixed (a b : List Nat) : Except Err (List Nat) := invQuadGuard a b
-
-/-- the batch-target check added to `expand` by notes/C19_fix_5.diff, on reversed lists
-(old batch shape, requested batch sizes). -/
-def expandBatchOkRev : List Nat → List Int → Bool
-  | [], ts => ts.all (fun t => decide (0 ≤ t))
-  | _ :: _, [] => false
-  | o :: os, t :: ts =>
-    (decide (t = -1) || (decide (0 ≤ t) && (decide (t = (o : Int)) || decide (o = 1)))) && expandBatchOkRev os ts
-
-/-- `expand` after notes/C19_fix_5.diff. -/
-def expandGuardFixed (a : List Nat) (sizes : List Int) : Except Err (List Int) :=
-  match split2 a, expandGuard a sizes with
-  | some (A, _, _), .ok batch => if expandBatchOkRev A.reverse batch.reverse then .ok batch else .error .shape
   | _, .error e => .error e
   | none, _ => .error .index
 
@@ -265,7 +258,28 @@ def fmodIndex (size : Nat) (i : Int) : Int := i.tmod size
 
 end Impl
 
-/-- Which guard a class's public method runs — keyed by the class that *defines* the method in the
+namespace Impl
+/-- Diag / ConstantDiag / KroneckerProductDiag `matmul(Tensor)` as it is: the guard, then `diag * other`. -/
+def diagMatmulGuarded (A : List Nat) (n : Nat) (b : List Nat) : Except Err (List Nat) :=
+  match matmulBroadcastShape (A ++ [n, n]) b with
+  | .error e => .error e
+  | .ok _ => diagMatmul A n b
+
+/-- Identity `matmul` / `solve` as they are: `_maybe_reshape_rhs` runs the guard, then broadcasts the argument. -/
+def identityMatmulGuarded (A : List Nat) (n : Nat) (b : List Nat) : Except Err (List Nat) :=
+  match matmulBroadcastShape (A ++ [n, n]) b with
+  | .error e => .error e
+  | .ok _ => identityMatmul A n b
+
+/-- `__getitem__`: every int index is range-checked (`-size ≤ i < size`) whatever `settings.debug` says. -/
+def intIndexGuard (size : Nat) (i : Int) : Except Err Nat := rangeCheck size i
+
+/-- `__getitem__`: every entry of a (non-bool) tensor index is range-checked (via `max` / `min`). -/
+def tensorIndexGuard (size : Nat) (l : List Int) : Except Err Unit :=
+  if l.all (fun i => Spec.indexValid size i) then .ok () else .error .index
+end Impl
+
+/-- Which shape logic a class's public `matmul` runs — keyed by the class that *defines* the method in the
 MRO (extracted from the source by harness/extract/c19_guards.py). -/
 inductive MatmulKind | base | diagEw | identity | zero
   deriving DecidableEq, Repr
@@ -275,18 +289,18 @@ def matmulKindOf (definer : String) : Option MatmulKind :=
   else if definer = "DiagLinearOperator" then some .diagEw
   else if definer = "ConstantDiagLinearOperator" then some .diagEw      -- falls to Diag.matmul for tensors
   else if definer = "IdentityLinearOperator" then some .identity
-  else if definer = "ZeroLinearOperator" then some .zero
+  else if definer = "ZeroLinearOperator" then some .zero               -- output shape = the guard's result
   else if definer = "BlockDiagLinearOperator" then some .base          -- `super().matmul` for tensors
   else if definer = "InterpolatedLinearOperator" then some .base       -- left_t_interp runs the guard on the inner product
   else none
 
-/-- The model's verdict for `op.matmul(T)` given the guard kind: `a = A ++ [m, n]`. -/
+/-- The model's verdict for `op.matmul(T)`: `a = A ++ [m, n]`. -/
 def matmulVerdict (k : MatmulKind) (a b : List Nat) : Except Err (List Nat) :=
   match k, split2 a with
   | .base, _ => Impl.matmulBroadcastShape a b
-  | .diagEw, some (A, _, n) => Impl.diagMatmul A n b
-  | .identity, some (A, _, n) => Impl.identityMatmul A n b
-  | .zero, _ => Impl.zeroMatmul a b
+  | .zero, _ => Impl.matmulBroadcastShape a b
+  | .diagEw, some (A, _, n) => Impl.diagMatmulGuarded A n b
+  | .identity, some (A, _, n) => Impl.identityMatmulGuarded A n b
   | _, none => .error .index
 
 end LinOp.C19
